@@ -42,16 +42,98 @@ theorem C17_routes_served :
   rw [MwProofs.find_route routes r hr hnd]
 
 open TV.Middleware in
+theorem longest_none {l : List Route} (h : longest l = none) : l = [] := by
+  cases l with
+  | nil => rfl
+  | cons a rest =>
+    simp only [longest] at h
+    split at h
+    · split at h <;> cases h
+    · cases h
+
+open TV.Middleware in
+theorem longest_spec : ∀ (l : List Route) (q : Route), longest l = some q → q ∈ l ∧ ∀ r ∈ l, r.path.length ≤ q.path.length := by
+  intro l
+  induction l with
+  | nil => intro q h; cases h
+  | cons a rest ih =>
+    intro q h
+    simp only [longest] at h
+    cases hr : longest rest with
+    | none =>
+      rw [hr] at h
+      simp only [Option.some.injEq] at h
+      subst h
+      have := longest_none hr
+      subst this
+      exact ⟨List.mem_cons_self, by intro r hr'; simp at hr'; subst hr'; exact Nat.le_refl _⟩
+    | some q' =>
+      rw [hr] at h
+      obtain ⟨hq', hmax⟩ := ih q' hr
+      by_cases hlt : a.path.length < q'.path.length
+      · simp only [if_pos hlt, Option.some.injEq] at h
+        subst h
+        refine ⟨List.mem_cons_of_mem _ hq', ?_⟩
+        intro r hr'
+        rcases List.mem_cons.mp hr' with rfl | hr'
+        · omega
+        · exact hmax r hr'
+      · simp only [if_neg hlt, Option.some.injEq] at h
+        subst h
+        refine ⟨List.mem_cons_self, ?_⟩
+        intro r hr'
+        rcases List.mem_cons.mp hr' with rfl | hr'
+        · exact Nat.le_refl _
+        · have := hmax r hr'; omega
+
+open TV.Middleware in
 theorem C17_others_rejected :
-    ∀ (routes : List Route) (m p : String), (∀ r ∈ routes, ¬ (r.method = m ∧ r.path = p)) →
-    dispatch routes m p = (if routes.any (fun r => r.path == p) then .methodNotAllowed else .notFound) := by
+    ∀ (routes : List Route) (m p : String), (∀ r ∈ routes, ¬ (r.method = m ∧ patMatches r.path p = true)) →
+    dispatch routes m p = (if routes.any (fun r => patMatches r.path p) then .methodNotAllowed else .notFound) := by
   intro routes m p hno
   unfold dispatch
-  have : routes.find? (fun r => r.method == m && r.path == p) = none := by
+  have h1 : routes.find? (fun r => r.method == m && r.path == p) = none := by
+    rw [List.find?_eq_none]
+    intro r hr
+    have := hno r hr
+    simp only [Bool.and_eq_true, beq_iff_eq, not_and]
+    intro hm hp
+    apply this
+    exact ⟨hm, by simp [patMatches, hp]⟩
+  have h2 : routes.filter (fun r => r.method == m && r.path.endsWith "/" && p.startsWith r.path) = [] := by
+    rw [List.filter_eq_nil_iff]
+    intro r hr
+    have := hno r hr
+    simp only [Bool.and_eq_true, beq_iff_eq]
+    intro h
+    obtain ⟨⟨hm, he⟩, hs⟩ := h
+    apply this
+    exact ⟨hm, by simp [patMatches, he, hs]⟩
+  rw [h1, h2]
+  rfl
+
+open TV.Middleware in
+theorem C17_subtree_served :
+    ∀ (routes : List Route) (m p : String), (∀ r ∈ routes, ¬ (r.method = m ∧ r.path = p)) →
+    ∀ q, longest (routes.filter (fun r => r.method == m && r.path.endsWith "/" && p.startsWith r.path)) = some q →
+    dispatch routes m p = .handler q.handler ∧ q ∈ routes ∧ q.method = m ∧ p.startsWith q.path = true ∧
+    ∀ r ∈ routes, r.method = m → r.path.endsWith "/" = true → p.startsWith r.path = true → r.path.length ≤ q.path.length := by
+  intro routes m p hno q hq
+  have h1 : routes.find? (fun r => r.method == m && r.path == p) = none := by
     rw [List.find?_eq_none]
     intro r hr
     simpa using hno r hr
-  rw [this]
+  obtain ⟨hmem, hmax⟩ := longest_spec _ q hq
+  rw [List.mem_filter] at hmem
+  obtain ⟨hqr, hqc⟩ := hmem
+  simp only [Bool.and_eq_true, beq_iff_eq] at hqc
+  refine ⟨?_, hqr, hqc.1.1, hqc.2, ?_⟩
+  · unfold dispatch
+    rw [h1, hq]
+  · intro r hr hm he hs
+    apply hmax
+    rw [List.mem_filter]
+    exact ⟨hr, by simp [hm, he, hs]⟩
 
 open TV.Middleware in
 theorem C17_each_listener_has_its_router :
